@@ -43,6 +43,16 @@ try:
                              stdout=subprocess.DEVNULL, stderr=subprocess.DEVNULL)
         print("warm %s: rc=%d" % (pkg, rc), flush=True)
         ok = ok and rc == 0
+    # native cache: release build of the registry crates that the table/header dump helpers link
+    try:
+        shutil.rmtree(os.path.join(cache, "native-target"), ignore_errors=True)
+        inj.native_run("warm", "fn main() { let _ = kmer::numeric_to_kmer(0, 1); let _ = composition::cgr::cgr_maps(1.0); }", ["kmer", "composition"], "warm")
+        nt = os.path.join(scratch, "nt")
+        if os.path.isdir(nt):
+            shutil.move(nt, os.path.join(cache, "native-target"))
+            print("warm native: ok", flush=True)
+    except Exception as e:
+        print("warm native: failed (%s)" % str(e)[:300], flush=True)
     dst = os.path.join(cache, "kani-target")
     shutil.rmtree(dst, ignore_errors=True)
     if os.path.isdir(tdir):
